@@ -27,7 +27,7 @@ ASSUMPTIONS = [
     "an attempt that ends by an error or panic (neither committed nor aborted: Run returns) and the Done pseudo-section are not logged by the runtime and are outside the statement",
 ]
 RULE = ("cases = scripted multi-archetype programs (1-4 MPCalContexts) + an interleaving (one schedule entry = one op of one archetype), from one PRNG (VERIF_SEED): "
-        "families locals (scalar and function-valued locals, retries, forced aborts, panicking ops), shared (LocalShared variables with lock contention, Go-channel resources), "
+        "families locals (scalar and function-valued locals, retries, forced aborts, panicking ops), shared (scalar and function-valued LocalShared variables read and written whole or by index, lock contention, Go-channel resources, attempts whose PreCommit is refused by a fault-injecting wrapper), "
         "relay (values passed on over 2-3 hops through channels / shared variables / TCP mailboxes), mailbox (loopback TCP mailboxes, several senders, aborted sends and receives), "
         "plus the corpus. Non-trivial = some attempt reads a value written or sent by another attempt (other archetype or earlier attempt); distinct by canonical case text.")
 
@@ -81,10 +81,12 @@ def gen_locals_decl(rng):
     return out
 
 
-def gen_label(rng, st, factories, maxops=5, abort_p=0.3, crash=None):
+def gen_label(rng, st, factories, maxops=5, abort_p=0.3, crash=None, refuse_p=0.0):
     tries = []
     while rng.random() < abort_p and len(tries) < 3:
         tries.append({"ops": [rng.choice(factories)(rng, st) for _ in range(rng.randint(0, maxops))], "abort": True})
+    if rng.random() < refuse_p:     # the body completes, the PreCommit of a dirty shared/channel resource is refused
+        tries.append({"ops": [rng.choice(factories)(rng, st) for _ in range(rng.randint(1, maxops))], "abort": False, "refuse": True})
     ops = [rng.choice(factories)(rng, st) for _ in range(rng.randint(0, maxops))]
     if crash is not None and rng.random() < 0.5:
         ops.insert(rng.randint(0, len(ops)), crash)
@@ -119,25 +121,39 @@ def gen_locals_case(rng):
     return {"kind": "locals", "archs": archs, "shared": [], "nchans": 1, "mboxes": [], "sched": random_sched(rng, archs)}
 
 
+def gen_shared_decl(rng):
+    if rng.random() < 0.45:
+        keys = rng.sample(range(1, 6), rng.randint(1, 3))
+        return {"map": [[k, rng.randint(0, 9)] for k in keys]}
+    return rng.randint(0, 9)
+
+
 def gen_shared_case(rng):
     st = {"n": 0}
     na = rng.randint(2, 4)
     nsh = rng.randint(1, 2)
     nch = rng.randint(0, 2)
+    shared = [gen_shared_decl(rng) for _ in range(nsh)]
     archs = []
     for a in range(na):
         locs = gen_locals_decl(rng) if rng.random() < 0.6 else [{"init": 0}]
         fs = mk_local_ops(locs)[:3]
         for j in range(nsh):
-            fs += [lambda rng, st, j=j: ["R", "shr", j, []]] * 2
-            fs += [lambda rng, st, j=j: ["W", "shr", j, [], val_expr(rng, st)]] * 2
+            if isinstance(shared[j], dict):
+                keys = [kv[0] for kv in shared[j]["map"]]
+                fs += [lambda rng, st, j=j, keys=keys: ["R", "shr", j, [rng.choice(keys)]]] * 2
+                fs += [lambda rng, st, j=j, keys=keys: ["W", "shr", j, [rng.choice(keys)], val_expr(rng, st)]] * 2
+                fs += [lambda rng, st, j=j: ["R", "shr", j, []]]
+            else:
+                fs += [lambda rng, st, j=j: ["R", "shr", j, []]] * 2
+                fs += [lambda rng, st, j=j: ["W", "shr", j, [], val_expr(rng, st)]] * 2
         for c in range(nch):
             fs += [lambda rng, st, c=c: ["R", "in", c, []]] * 2
             fs += [lambda rng, st, c=c: ["W", "out", c, [], val_expr(rng, st)]] * 2
-        crash = ["R", "shr", 0, [1]] if rng.random() < 0.05 else None
-        labels = [gen_label(rng, st, fs, maxops=4, abort_p=0.25, crash=crash if i == 1 else None) for i in range(rng.randint(1, 3))]
+        crash = ["R", "shr", 0, [77]] if rng.random() < 0.05 else None
+        labels = [gen_label(rng, st, fs, maxops=4, abort_p=0.25, crash=crash if i == 1 else None, refuse_p=0.3) for i in range(rng.randint(1, 3))]
         archs.append({"locals": locs, "labels": labels})
-    return {"kind": "shared", "archs": archs, "shared": [rng.randint(0, 9) for _ in range(nsh)], "nchans": max(nch, 1), "mboxes": [],
+    return {"kind": "shared", "archs": archs, "shared": shared, "nchans": max(nch, 1), "mboxes": [],
             "sched": random_sched(rng, archs, slack=1.6)}
 
 
@@ -147,6 +163,8 @@ def link_ops(kind, i):
         return (lambda e: ["W", "out", i, [], e]), ["R", "in", i, []]
     if kind == "shr":
         return (lambda e: ["W", "shr", i, [], e]), ["R", "shr", i, []]
+    if kind == "shrm":     # one cell of a function-valued shared variable
+        return (lambda e: ["W", "shr", i, [2], e]), ["R", "shr", i, [2]]
     return (lambda e: ["W", "box", i, [], e]), ["R", "box", i, []]
 
 
@@ -157,14 +175,18 @@ def gen_relay_case(rng, with_box=True):
     hops = rng.randint(2, 3)
     na = hops + 1
     side = rng.random() < 0.7          # extra source Z feeding one relay after its write
-    kinds = [rng.choice(["chan", "shr", "box"] if with_box else ["chan", "shr"]) for _ in range(hops)]
+    kinds = [rng.choice(["chan", "shr", "shrm", "box"] if with_box else ["chan", "shr", "shrm"]) for _ in range(hops)]
     cnt = {"chan": 0, "shr": 0, "box": 0}
     links = []
     mbox_owner = []
+    shared_decl = []
     for h, kd in enumerate(kinds):
-        links.append((kd, cnt[kd])); cnt[kd] += 1
+        ck = "shr" if kd == "shrm" else kd
+        links.append((kd, cnt[ck])); cnt[ck] += 1
         if kd == "box":
             mbox_owner.append(h + 1)
+        if ck == "shr":
+            shared_decl.append({"map": [[1, 0], [2, 0], [3, 0]]} if kd == "shrm" else 0)
     archs = [{"locals": [{"init": 0}], "labels": []} for _ in range(na)]
     z = None
     if side:
@@ -200,6 +222,8 @@ def gen_relay_case(rng, with_box=True):
         tries = []
         if rng.random() < 0.3:
             tries.append({"ops": ops[:rng.randint(0, len(ops))], "abort": True})
+        if rng.random() < 0.2:
+            tries.append({"ops": ops, "abort": False, "refuse": True})
         tries.append({"ops": ops, "abort": False})
         archs[h]["labels"].append({"tries": tries})
         sched += [h] * sum(len(t["ops"]) + 1 for t in tries)
@@ -209,8 +233,7 @@ def gen_relay_case(rng, with_box=True):
             if kinds[a - 1] != "box" or rng.random() < 0.3:
                 sched.insert(rng.randint(0, len(sched) // 2), a)
         sched += list(range(na)) * 3
-    nsh = max(cnt["shr"], 0)
-    return {"kind": "relay", "archs": archs, "shared": [0] * nsh, "nchans": max(cnt["chan"], 1), "mboxes": mbox_owner, "sched": sched}
+    return {"kind": "relay", "archs": archs, "shared": shared_decl, "nchans": max(cnt["chan"], 1), "mboxes": mbox_owner, "sched": sched}
 
 
 def gen_mailbox_case(rng):
@@ -382,6 +405,8 @@ def cell_set(v, idx, x):
 
 
 def local_init(l):
+    if not isinstance(l, dict):
+        return l
     if "map" in l and l["map"] is not None:
         return ("map", {k: v for k, v in l["map"]})
     return l.get("init", 0) or 0
@@ -405,19 +430,19 @@ def oracle(case, res):
             continue
         nl = len(case["archs"][a]["labels"])
         for i, (t, e) in enumerate(zip(atts, per[a])):
-            if e["abort"] != (t["end"] != "commit") and not (e["abort"] and t["end"] == "commit" and any(res.get("flags") or [])):
+            if e["abort"] != (t["end"] != "commit" or bool(t.get("refused"))) and not (e["abort"] and t["end"] == "commit" and any(res.get("flags") or [])):
                 fails.append(("event-abort-flag", "A%d attempt %d ended by %s, logged isAbort=%s" % (a, i + 1, t["end"], e["abort"])))
             exp = [("r", "pc", 0, [], t["lbl"])]
             for o in t["ops"]:
                 if o["outc"] == "ok":
                     exp.append((o["t"], o["k"], o["id"], list(o["idx"]), parse_val(o["val"], case, a)))
-            if t["end"] == "commit":
+            if t["end"] == "commit":     # Goto was performed (also when a PreCommit was refused afterwards)
                 exp.append(("w", "pc", 0, [], t["lbl"] + 1))
             got = [x[:5] for x in e["elems"]]
             if got != [tuple(x) for x in exp] and [list(g) for g in got] != [list(x) for x in exp]:
                 fails.append(("elements-differ", "A%d attempt %d: performed %r, logged %r" % (a, i + 1, exp, got)))
     # (3)+(4) replay: hints = value overwritten; committed writes reproduce every logged read of local state
-    shared = {j: v for j, v in enumerate(case["shared"])}
+    shared = {j: local_init(v) for j, v in enumerate(case["shared"])}
     for a in range(na):
         pc = 0
         loc = {k: local_init(l) for k, l in enumerate(case["archs"][a]["locals"])}
@@ -450,10 +475,17 @@ def oracle(case, res):
     for e in evs:   # shared variables: serial in commit order (strict 2PL), hint if present = value overwritten
         tsh = dict(shared)
         for (t, kind, rid, idx, val, old) in e["elems"]:
-            if kind == "shr" and t == "w" and not idx and rid in tsh:
-                if old is not None and old != tsh[rid]:
-                    fails.append(("hint-shared", "A%d: write of s%d overwrote %r, hint %r" % (e["a"], rid, tsh[rid], old)))
-                tsh[rid] = val
+            if kind == "shr" and rid in tsh:
+                try:
+                    cur = cell_get(tsh[rid], idx)
+                    if t == "w":
+                        if old is not None and old != cur:
+                            fails.append(("hint-shared", "A%d: write of s%d%r overwrote %r, hint %r" % (e["a"], rid, idx, cur, old)))
+                        tsh[rid] = cell_set(tsh[rid], idx, val)
+                    elif cur != val:
+                        fails.append(("replay-shared-read", "A%d: read of s%d%r logged %r, the serial replay of the committed sections gives %r" % (e["a"], rid, idx, val, cur)))
+                except Bad as b:
+                    fails.append(("replay-shared-read", "A%d: %s" % (e["a"], b)))
         if not e["abort"]:
             shared = tsh
     # (5) own component grows by one per logged attempt
@@ -466,14 +498,14 @@ def oracle(case, res):
     chk = amb = 0
     for ri, er in enumerate(evs):
         for (t, kind, rid, idx, val, old) in er["elems"]:
-            if t != "r" or kind not in ("loc", "shr", "in", "box") or idx:
+            if t != "r" or kind not in ("loc", "shr", "in", "box") or isinstance(val, tuple):
                 continue
             wkind = {"loc": "loc", "shr": "shr", "in": "out", "box": "box"}[kind]
             cands = []
             for wi, ew in enumerate(evs[:ri]):
                 if ew["abort"] or (kind == "loc" and ew["a"] != er["a"]):
                     continue
-                pos = [p for p, x in enumerate(ew["elems"]) if x[0] == "w" and x[1] == wkind and x[2] == rid and not x[3] and x[4] == val]
+                pos = [p for p, x in enumerate(ew["elems"]) if x[0] == "w" and x[1] == wkind and x[2] == rid and x[3] == idx and x[4] == val]
                 if pos:
                     cands.append((ew, pos))
             if not cands:
@@ -536,7 +568,9 @@ def coq_cfg(case):
                               for l in ar["labels"]])
         locs = vlib.coq_list([coq_val(("map", l["map"])) if l.get("map") is not None else coq_val(l.get("init", 0) or 0) for l in ar["locals"]])
         archs.append("mkACfg %s %s" % (prog, locs))
-    return "(mkCfg %s %s %s)" % (vlib.coq_list(archs), vlib.coq_list([cz(v) for v in case["shared"]]), vlib.coq_list(["%d" % o for o in case["mboxes"]]))
+    sh = [coq_val(("map", v["map"])) if isinstance(v, dict) and v.get("map") is not None else coq_val(v.get("init", 0) or 0) if isinstance(v, dict) else coq_val(v)
+          for v in case["shared"]]
+    return "(mkCfg %s %s %s)" % (vlib.coq_list(archs), vlib.coq_list(sh), vlib.coq_list(["%d" % o for o in case["mboxes"]]))
 
 
 def ordered_map(v, case, a, kind, rid):
@@ -546,6 +580,8 @@ def ordered_map(v, case, a, kind, rid):
     decl = None
     if kind == "loc" and rid < len(case["archs"][a]["locals"]):
         decl = case["archs"][a]["locals"][rid].get("map")
+    if kind == "shr" and rid < len(case["shared"]) and isinstance(case["shared"][rid], dict):
+        decl = case["shared"][rid].get("map")
     keys = [k for k, _ in decl] if decl else sorted(v[1])
     return ("map", [(k, v[1][k]) for k in keys if k in v[1]] + [(k, x) for k, x in sorted(v[1].items()) if k not in keys])
 
